@@ -42,7 +42,12 @@ func c03TargetSpec(which string) sbuilder.SelectorSpec {
 // c03Walk runs the traversal; the visitor only collects, nodes are inspected after the walk.
 func c03Walk(st *Store, root cid.Cid, path, which string, matchPath bool) (matches []c03Match, log []cid.Cid, err error) {
 	ls := st.LinkSystem()
-	sel, err := selector.CompileSelector(unixfsnode.UnixFSPathSelectorBuilder(path, c03TargetSpec(which), matchPath))
+	spec := unixfsnode.UnixFSPathSelectorBuilder(path, c03TargetSpec(which), matchPath)
+	if which == "match" && !matchPath && len(path)%2 == 1 {
+		// the short form: documented as the same selector
+		spec = unixfsnode.UnixFSPathSelector(path)
+	}
+	sel, err := selector.CompileSelector(spec)
 	if err != nil {
 		return nil, nil, fmt.Errorf("compile: %w", err)
 	}
